@@ -358,7 +358,7 @@ def finalize(merged, tier):
         "referenced_over_total": "%d/%d" % (c.get("opcode_entries_referenced", 0), c.get("opcode_entries", 0)),
         "reference_gaps": O.REFERENCE_GAPS,
     }
-    if c.get("opcode_entries", 0) < 200 or c.get("opcode_values_checked", 0) != 256:
+    if c.get("opcode_entries", 0) < 200 or c.get("opcode_values_checked", 0) not in (256, 512):  # once, or also under -O
         merged["inconclusive"].append("enumeration walk incomplete: %r" % c)
     for k in ("exercise_attaches_ok", "exercise_constructions_ok", "exercise_facade_calls_ok"):
         if c.get(k, 0) < 20:
